@@ -222,6 +222,7 @@ pub fn judge_c08(c: &C08Case, p: &Probe) -> Judge {
 }
 
 pub fn run_c08(ctx: &Ctx) {
+    ctx.enable_traced_pass(4);
     ctx.set_rule("proptest-generated model messages x payload source {none, blocking Read, AsyncRead} (scripted: fragmented, with Interrupted/Pending results) x payload bytes (0 B - 64 KiB; multi-MiB in the big-payload sub-run) x consumer {into_read, into_async_read, IppPayload as Read, IppPayload as AsyncRead} x a generated sequence of consumer buffer sizes (1 B - 64 KiB, varying per call): the concatenated output must equal to_bytes() (taken from the same instance) ++ payload bytes (payload only for the IppPayload consumers), then three further reads report end-of-stream. Non-trivial = payload >= 2 bytes split by both the source fragmentation and the consumer buffers, or a sync<->async bridge with a non-empty payload; distinct by case hash.");
     ctx.assume("for an async payload read through the blocking interface the library calls block_on: only immediately-woken Pending is explored there");
     let (shards, per) = ctx.tier.pick((16, 2500), (16, 40000));
@@ -461,6 +462,7 @@ pub fn judge_c17(r: &Resp, p: &Probe) -> Judge {
 }
 
 pub fn run_c17(ctx: &Ctx) {
+    ctx.enable_traced_pass(4);
     ctx.set_rule("proptest-generated responses: status (weighted to the three success codes, also 0x0003-0x00ff and any u16) x printer-state {absent, enum 3/4/5, other enum, integer 5, keyword} x printer-state-reasons {absent, one keyword, set of 1-8 keywords from the ten blocking and an informational vocabulary, blocking keyword at any position} x unrelated attributes and groups before/after (in 50 % of cases the operation group and the first preceding job/unsupported group carry harmless attributes of the same names: reasons 'none', out-of-band 'unsupported', state idle/processing - the printer-attributes group stays authoritative); each response is judged twice: built in memory, and encoded by the reference encoder and parsed by the library. Oracle = truth table from the statement (silent where it is silent). Non-trivial = success status and (blocking keyword not first in a set, or a single keyword, or stopped with harmless reasons); distinct by response hash.");
     ctx.assume("state/reasons are placed in the first printer-attributes group only; status 0x0003-0x00ff is not asserted");
     let (shards, per) = ctx.tier.pick((16, 15000), (16, 250000));
